@@ -10,6 +10,9 @@ srcname, srcletter = prop, letter
 if prop.startswith("R2_"):
     srcname, prop = prop, prop[3:]
     letter = {"A": "C", "B": "D"}[srcletter]
+elif prop.startswith("R3_"):
+    srcname, prop = prop, prop[3:]
+    letter = {"A": "E", "B": "F"}[srcletter]
 src = f"/tmp/seed_out/{srcname}/{srcletter}"
 dst = f"/verif/seeded/{prop}-{letter}"
 os.makedirs(dst, exist_ok=True)
